@@ -83,26 +83,34 @@ func (c *Ctx) nafWidths(p *load.Program, cfg string, naf *ssa.Function) ([]int, 
 					continue
 				}
 				args := call.Call.Args
-				k, isConst := args[len(args)-1].(*ssa.Const)
 				o := report.Obligation{Rule: "NAF-WIDTH", Key: fmt.Sprintf("NAF-WIDTH/%s/call#%d", load.ShortName(fn), n), Config: cfg, Pos: p.Rel(call.Pos())}
 				n++
-				if !isConst || k.Value == nil || k.Value.Kind() != constant.Int {
+				// the width is a literal here, or a parameter that every caller of this (unexported) function binds to a literal
+				ws, isConst := constArgValues(p, fn, args[len(args)-1], 0)
+				if !isConst || len(ws) == 0 {
 					o.Detail = "the recoding width is not a constant at this call: the digit range, and with it the table index, is not decided"
 					c.Set.Add(o)
 					all = false
 					continue
 				}
-				w64, _ := constant.Int64Val(k.Value)
-				w := int(w64)
-				if w < 2 || w > 8 {
-					o.Detail = fmt.Sprintf("width %d is outside 2…8", w)
+				bad := false
+				for _, w64 := range ws {
+					if w64 < 2 || w64 > 8 {
+						o.Detail = fmt.Sprintf("width %d is outside 2…8", w64)
+						bad = true
+					}
+				}
+				if bad {
 					c.Set.Add(o)
 					all = false
 					continue
 				}
-				set[w] = true
 				o.OK = true
-				o.Detail = fmt.Sprintf("constant width %d: digits are odd with |d| ≤ %d (NAF obligations); every table they index has at least %d entries (checked at each selector call in the GROUP runs)", w, (1<<uint(w-1))-1, 1<<uint(w-2))
+				for _, w64 := range ws {
+					w := int(w64)
+					set[w] = true
+					o.Detail += fmt.Sprintf("constant width %d: digits are odd with |d| ≤ %d (NAF obligations); every table they index has at least %d entries (checked at each selector call in the GROUP runs). ", w, (1<<uint(w-1))-1, 1<<uint(w-2))
+				}
 				c.Set.Add(o)
 			}
 		}
@@ -455,4 +463,75 @@ func abs64(x int64) int64 {
 		return -x
 	}
 	return x
+}
+
+// constArgValues resolves an integer operand of fn to the set of constants it
+// can hold: a literal, or a parameter of an unexported function all of whose
+// call sites pass (recursively) such constants.
+func constArgValues(p *load.Program, fn *ssa.Function, v ssa.Value, depth int) ([]int64, bool) {
+	switch x := v.(type) {
+	case *ssa.Const:
+		if x.Value == nil || x.Value.Kind() != constant.Int {
+			return nil, false
+		}
+		n, ok := constant.Int64Val(x.Value)
+		return []int64{n}, ok
+	case *ssa.Convert:
+		return constArgValues(p, fn, x.X, depth)
+	case *ssa.ChangeType:
+		return constArgValues(p, fn, x.X, depth)
+	case *ssa.Parameter:
+		if depth > 4 || p.IsAPIRoot(fn) {
+			return nil, false
+		}
+		idx := -1
+		for i, q := range fn.Params {
+			if q == x {
+				idx = i
+			}
+		}
+		if idx < 0 {
+			return nil, false
+		}
+		seen := map[int64]bool{}
+		var out []int64
+		sites := 0
+		for _, g := range p.Funcs {
+			for _, b := range g.Blocks {
+				for _, ins := range b.Instrs {
+					call, ok := ins.(*ssa.Call)
+					if !ok {
+						continue
+					}
+					callee, _ := load.StaticCallee(call)
+					if callee != fn {
+						// the function used as a value (stored, passed on): callers unknown
+						for _, op := range ins.Operands(nil) {
+							if *op == ssa.Value(fn) {
+								return nil, false
+							}
+						}
+						continue
+					}
+					sites++
+					args := load.Actuals(call)
+					if idx >= len(args) {
+						return nil, false
+					}
+					vs, ok := constArgValues(p, g, args[idx], depth+1)
+					if !ok {
+						return nil, false
+					}
+					for _, n := range vs {
+						if !seen[n] {
+							seen[n] = true
+							out = append(out, n)
+						}
+					}
+				}
+			}
+		}
+		return out, sites > 0
+	}
+	return nil, false
 }
